@@ -14,9 +14,9 @@ def main(tier: str, seed: int) -> int:
     np = run.pick(4, 7)
     shards = []
     ov = {"skipuntil": True, "tags": True, "trivia_explicit": True, "trivia_refs": True, "ci_nonascii": True, "zero_counts": True, "skipuntil_ci": True}
-    shards += E.random_shards(PROP, run, JUDGES, profile="full", count=run.pick(40, 450), cap=run.pick(100, 250), maxlen=4, extra={"pipelines": np, "extra_alpha": " #", "profile_overrides": {"zero_counts": True, "skipuntil_ci": True, "zero_width_stack_reps": True}})
+    shards += E.random_shards(PROP, run, JUDGES, profile="full", count=run.pick(40, 450), cap=run.pick(100, 250), maxlen=4, extra={"pipelines": np, "extra_alpha": " #", "start_rules": "all", "profile_overrides": {"zero_counts": True, "skipuntil_ci": True, "zero_width_stack_reps": True}})
     shards += E.random_shards(PROP, run, JUDGES, profile="core", count=run.pick(30, 350), cap=run.pick(100, 250), maxlen=4, extra={"pipelines": np, "profile_overrides": ov, "long_inputs": 2})
-    shards += E.random_shards(PROP, run, JUDGES, profile="trivia", count=run.pick(30, 350), cap=run.pick(100, 250), maxlen=4, extra={"pipelines": np, "profile_overrides": ov, "extra_alpha": " #", "rename": True})
+    shards += E.random_shards(PROP, run, JUDGES, profile="trivia", count=run.pick(30, 350), cap=run.pick(100, 250), maxlen=4, extra={"pipelines": np, "profile_overrides": ov, "extra_alpha": " #", "rename": True, "start_rules": "all"})
     shards += E.matrix_shards(PROP, run, JUDGES, sample=run.pick(1300, 0), cap=run.pick(120, 300), extra={"pipelines": np})
     # optimizer-target family: every shape the passes pattern-match on x ordered operand pairs, under ordered
     # selections of the passes (all 325 on the thorough tier), so each pass also meets every other pass's output
@@ -31,8 +31,9 @@ def main(tier: str, seed: int) -> int:
     for j in range(16):
         shards.append({
             "prop": PROP, "judges": JUDGES, "modes": ["I", "GI", "O", "GO"], "source": "opttargets", "indices": idx[j::16], "seed": E.seed_int(PROP, run.seed, "ot", j),
-            "cap": run.pick(40, 80), "maxlen": 3, "pipelines": run.pick(24, 60), "pipeline_mode": "ordered", "sample_at": 10**9,
+            "cap": run.pick(40, 80), "maxlen": 3, "pipelines": run.pick(24, 60), "pipeline_mode": "ordered", "sample_at": 10**9, "start_rules": "all",
         })
+    shards += E.scale_shards(PROP, run, JUDGES, extra={"pipelines": np})
     E.execute(run, shards)
     return run.finish(
         rule=(
@@ -40,7 +41,7 @@ def main(tier: str, seed: int) -> int:
             "rules with and without trivia, choices of literals/ranges/CI literals with shared prefixes, silent-rule references incl. tagged and "
             "recursive ones) and the construct matrix; per grammar the default pipeline plus seeded configurations (each single pass, subsets, "
             "permutations, repetitions of DEFAULT_OPTIMIZER_PASSES, fresh Optimizer objects), interpreted and generated, are compared with the "
-            "optimizer=None result computed BEFORE any optimizer ran in the worker process. Plus the optimizer-target family (12 shapes: choice, "
+            "optimizer=None result computed BEFORE any optimizer ran in the worker process. Plus the optimizer-target family (14 shapes: choice, "
             "choice under * + ? {n} and a tag, (!C ~ ANY)* with/without terminator, through silent and normal rule references, !C ~ ANY; C = every "
             "ordered pair of 11 literal-like operands incl. CI literals, ranges, built-ins, silent/normal references and a nested choice; 3 rule "
             "modifiers; with/without WHITESPACE) under seeded ordered selections of the passes (observed_sets lists which). "
